@@ -51,6 +51,14 @@ CHECKS = {
             "construct_block_for_mining output must be accepted at 5 clock offsets in every state; 9,192-case grid of "
             "calculate_new_target with the real constants; thorough adds a 10,080-block chain forked across the real boundary.",
             "Targets are enumerated at every power-of-two boundary, not all 2^256 values.", "DESIGN.md section 4, C05"),
+    'C06': (FE, "exhaustive fault enumeration: every single-bit flip and every truncation of every block of a set, on an "
+                "easy-target universe where proof-of-work luck cannot mask anything",
+            "For 40 (quick) / several hundred (thorough) fully valid blocks with 1-4 transactions, reward data 0/1/200 bytes and "
+            "heights on both sides of the VLQ width boundaries, every bit flip and every proper prefix of the encoding goes "
+            "through Block.deserialize and CoinState.add_block on the chain holding the block's parent; any acceptance is a "
+            "violation. If the tree under test refuses the reference-assembled blocks, blocks from its own assembly are used.",
+            "Single-bit and truncation faults only; the rejecting-rule histogram in the evidence is informational.",
+            "DESIGN.md section 4, C06"),
     'C07': (EX, "exhaustive enumeration of decoder inputs: all short VLQ strings, every byte x position substitution of sample "
                 "encodings, prefix insertion, trailing data; value-grid round trips",
             "Every byte string of length <= 2 (3 thorough) to the VLQ decoder; for ~30 (50) canonical encodings of all consensus "
@@ -58,6 +66,14 @@ CHECKS = {
             "whatever decodes must re-encode to the consumed bytes and carry id = sha256d(canonical encoding); 1,060 grid values "
             "of all consensus and wire types round-trip field by field; ids of objects read back from a BlockStore.",
             "The space of byte strings is unbounded; what is complete is the stated mutation families.", "DESIGN.md section 4, C07"),
+    'C11': (MC, "exhaustive enumeration of all 2-way and 3-way cuts of framed and corrupted streams against a reference framer",
+            "116 (quick) / ~300 streams of 1-3 real messages and 30 corruption variants (each magic byte, over-limit and "
+            "boundary lengths, short/long lengths, undecodable payloads, truncation); for each: whole, bytewise, every 2-way cut "
+            "(also with an empty read) and every 3-way cut, through MessageReceiver.receive and through "
+            "ConnectedRemotePeer.handle_receive_data; the dispatched sequence and the read that raises the refusal must equal "
+            "the reference framer's under every cut.",
+            "Payload validity inside a frame is decided by the real message decoders (fragmentation independence, not the "
+            "decoders, is under test here).", "DESIGN.md section 4, C11"),
     'C17': (EX, "exhaustive enumeration of all lists over a small alphabet and all single edits / proof positions per length",
             "All lists over 3 (4) ids up to length 8 (9): commitments pairwise distinct (covers every substitution, reordering, "
             "removal, append, duplication incl. duplicate-last); for every length up to 33 (130) every single edit changes the "
